@@ -365,12 +365,27 @@ class ExecBase:
             return z3.And(z3.Not(T.opt_is_none(a)), self.eq(st, T.opt_val(a), cb))
         if isinstance(b.ty, Opt) and not isinstance(a.ty, Opt):
             return self.eq(st, b, a)
-        if a.ty == b.ty:
+        if a.ty == b.ty and a.ty != PYOBJ:
             return a.t == b.t
         if {a.ty, b.ty} <= {INT, BOOL, REAL}:
             x = T.coerce(a, REAL if REAL in (a.ty, b.ty) else INT)
             y = T.coerce(b, REAL if REAL in (a.ty, b.ty) else INT)
             return x.t == y.t
+        if a.ty == PYOBJ and b.ty == PYOBJ and "typeof" in (a.t.kind, b.t.kind):
+            # type(x) is SomeClass: decided by the class model; a model may declare a discriminating ghost field
+            # for real classes that share one model (CLASSES[cls].type_tests = {"RealName": "expr over self"})
+            tv, cv = (a.t, b.t) if a.t.kind == "typeof" else (b.t, a.t)
+            x = tv.of
+            xty = x.ty.inner if isinstance(x.ty, Opt) else x.ty
+            cname = getattr(cv, "name", None)
+            if isinstance(xty, Ref) and cname:
+                cm = C.CLASSES.get(xty.cls)
+                tests = getattr(cm, "type_tests", {}) if cm else {}
+                if cname in tests:
+                    return self.truthy(st, self.spec_eval(tests[cname], st, extra={"self": x}, old=st))
+                real = (cm.real or "").split(":")[-1] if cm else ""
+                return z3.BoolVal(real == cname or xty.cls == cname)
+            raise Unsupported("type(%s) is %r" % (x.ty, cname))
         if a.ty == PYOBJ and b.ty == PYOBJ:
             return z3.BoolVal(a.t is b.t or (getattr(a.t, "kind", None) == getattr(b.t, "kind", 0)
                                             and a.t.__dict__ == b.t.__dict__))
@@ -403,7 +418,7 @@ class ExecBase:
 
     def fork_raise(self, st, cond, name):
         """Fork: a path raising `name` when cond, and continue under Not(cond)."""
-        if self.spec:
+        if self.spec or self.no_oblige:
             return
         c = z3.simplify(cond)
         if z3.is_false(c):
